@@ -23,7 +23,8 @@ RULE = ("layouts written through the real cesium writer: 1-3 index channels x 0-
         "file-size caps {default,40,64,100,200,1000} B forcing rollover, groups that do not write their index, zero-length "
         "samples on string/json channels (preferably last in a frame/domain), 40% iterated after Close+Open (offset tables "
         "rebuilt from the files), 10% "
-        "with one illegal step; then 3-25 iterator commands on one channel: positions from sample stamps, +-1, writer "
+        "with one illegal step; then 3-25 iterator commands (30% of the cases arm a one-shot read fault on the index channel's data "
+        "files before one or two steps; every frame is kept by reference and re-examined after the last command) on one channel: positions from sample stamps, +-1, writer "
         "starts, 0, MAX; spans {1,2,gap,gap+-1,domain length,whole range,MAX}; chunk {1,2,3,7,100}. Non-trivial = the "
         "iterated channel holds >=2 committed sessions or a rollover-size cap, and the sequence has both a forward and "
         "a backward step and at least one step returning data; distinct by hash.")
@@ -126,6 +127,34 @@ def avoid_known(ops, rng, spans=(1, 2, 7)):
     return out
 
 
+SEEKS = ("seek_first", "seek_last", "seek_le", "seek_ge")
+STEPS = ("next", "prev", "next_auto", "prev_auto")
+
+
+def add_faults(ops, rng, pos):
+    """Arm a scripted ONE-SHOT read fault (the f-th ReadAt on the index channel's data files fails
+    once) before one or two step commands. A step hit by the fault may fail; if it claims success
+    it must still be exact. Errors are sticky, so a seek follows every faulted step."""
+    cand = [i for i, o in enumerate(ops) if o["c"] in STEPS]
+    if not cand:
+        return ops
+    chosen = set(rng.sample(cand, min(len(cand), rng.choice([1, 1, 2]))))
+    out = []
+    for i, o in enumerate(ops):
+        if i in chosen:
+            o = dict(o)
+            o["f"] = rng.choice([1, 1, 1, 2, 3, 5])
+            out.append(o)
+            nxt = ops[i + 1]["c"] if i + 1 < len(ops) else None
+            if nxt not in SEEKS:
+                y = rng.random()
+                out.append({"c": "seek_first"} if y < 0.3 else {"c": "seek_last"} if y < 0.45 else
+                           {"c": rng.choice(["seek_le", "seek_ge"]), "a": rng.choice(pos)})
+        else:
+            out.append(o)
+    return out
+
+
 def gen_case(rng, tier, backward_auto=False):
     malformed = rng.random() < 0.1
     setup = cesgen.gen_setup(rng, malformed=malformed)
@@ -148,7 +177,10 @@ def gen_case(rng, tier, backward_auto=False):
     if backward_auto:
         ops = [{"c": "seek_last"}] + [{"c": "prev_auto"} for _ in range(rng.randrange(2, 14))]
     else:
-        ops = avoid_known(gen_ops(rng, setup, key, bounds), rng)
+        ops = gen_ops(rng, setup, key, bounds)
+        if rng.random() < 0.3:
+            ops = add_faults(ops, rng, pos)
+        ops = avoid_known(ops, rng)
     return {"setup": setup, "key": key, "bounds": bounds, "chunk": chunk, "ops": ops}
 
 
@@ -166,10 +198,12 @@ def harness_violation(case, r):
 
 def to_coq(case, r):
     s = case["setup"]
-    return "Case %s %s %s %s %d %s %s [%s] [%s]" % (
+    late = ";".join("[%s]" % ";".join(cesgen.c_series(x) for x in (o["late"] if o.get("late") is not None else o["ser"]))
+                    for o in r["outs"])
+    return "Case %s %s %s %s %d %s %s [%s] [%s] [%s]" % (
         z(s["cap"]), cesgen.c_chans(s["channels"]), cesgen.c_script(s["script"]), cesgen.c_sres(r["script"]),
         case["key"], c_tr(*case["bounds"]), z(case["chunk"]),
-        ";".join(c_cmd(o) for o in case["ops"]), ";".join(c_obs(o) for o in r["outs"]))
+        ";".join(c_cmd(o) for o in case["ops"]), ";".join(c_obs(o) for o in r["outs"]), late)
 
 
 def nontrivial(case, r):
@@ -191,12 +225,16 @@ def histogram(case, r):
           "channels=%d" % len(case["setup"]["channels"])]
     for o in case["ops"]:
         ks.append("cmd=" + o["c"])
+        if o.get("f"):
+            ks.append("read_fault_armed")
     for res in r.get("script", []):
         if res["err"]:
             ks.append("script_err=%d" % res["err"])
     for o in r.get("outs", []):
         if o["err"]:
             ks.append("iter_err=%d" % o["err"])
+        if o.get("fired"):
+            ks.append("read_fault_fired")
         ks.append("series=%d" % min(len(o["ser"]), 3))
     dt = next(c["dt"] for c in case["setup"]["channels"] if c["key"] == case["key"])
     ks.append("dt=" + dt)
@@ -319,7 +357,7 @@ def guard_coverage(ctx, n=120):
     terms = []
     for c in cases:
         s = c["setup"]
-        terms.append("Case %s %s %s [] %d %s %s [] []" % (z(s["cap"]), cesgen.c_chans(s["channels"]),
+        terms.append("Case %s %s %s [] %d %s %s [] [] []" % (z(s["cap"]), cesgen.c_chans(s["channels"]),
                      cesgen.c_script(s["script"]), c["key"], c_tr(*c["bounds"]), z(c["chunk"])))
     out = coq_print(PID, COQ_IMPORTS, COQ_EXTRA + "\nEval vm_compute in map in_guard [%s]." % ";\n".join(terms), timeout=600)
     out = re.sub(r"\s+", " ", out)
